@@ -239,6 +239,10 @@ def run_case(case):
             ops0 = MeshOperators(mesh, SparseSolver.SUPERLU, fixed_sites=fx)
             ops0.build_operators()
             L0 = build_laplacian(mesh)[0].toarray()
+            missing = [nm for nm in ("mu_laplacian", "divergence", "mu_gradient", "mu_boundary_laplacian", "mu_laplacian_lu") if getattr(ops0, nm, None) is None]
+            if missing:
+                res.violate("solver-operator-not-built", operator=missing[0], detail=det)
+                continue
             for nm, got, want in (("mu_laplacian", ops0.mu_laplacian.toarray(), L0), ("divergence", ops0.divergence.toarray(), build_divergence(mesh).toarray()),
                                   ("mu_gradient", ops0.mu_gradient.toarray(), build_gradient(mesh).toarray()),
                                   ("mu_boundary_laplacian", ops0.mu_boundary_laplacian.toarray(), build_neumann_boundary_laplacian(mesh).toarray())):
